@@ -13,6 +13,11 @@
 (* variable whose name may differ from the setting's, reads as its default while that variable is unset *)
 (* or holds no valid value, and changes through the settings controller or through the variable); a subscriber holding the last value, the set of keys the last evaluation depends  *)
 (* on (`reads`) and whether its future has completed (`pending`); actions per public call:              *)
+(* A machine variable (also the one behind a setting) is 'missing', 'declared, unset' (configure_machine_var: it exists *)
+(* with the value None - the state set_setting_value passes through the first time a setting is changed) or 'set';    *)
+(* env.dc[n] tells whether it exists.  Both unset states read as None; the values written include the falsy value of   *)
+(* every type (0, False, '', None), and a change is what Python's != calls one (None -> 0, '' -> 0, 2 -> 0 are, 0 ->    *)
+(* False is not).  Declare(var) is configure_machine_var on a missing variable.                                        *)
 (* Set*(var, v), Turn, GameStart, GameEnd, Reeval (the _update_subscription step), Post (conditional    *)
 (* event handler, evaluated at post time).  `auto` is a consumer that re-evaluates in its done-callback *)
 (* (config_player._update_subscription / event_player.handle_subscription_change).                      *)
@@ -60,6 +65,9 @@ PyEq(a, b) == IF IsNum(a) /\ IsNum(b) THEN Num(a) = Num(b)
                      [] a.k = "tup" -> Len(a.v) = Len(b.v) /\ \A i \in 1..Len(a.v) : PyEq(a.v[i], b.v[i])
                      [] a.k \in {"none", "dflt"} -> TRUE
                      [] OTHER -> FALSE
+\* the same value as far as a template can tell: equal including the type, or equal by Python's == (0 and False; an
+\* assignment of False over 0 is "no change" and nothing in the grammar tells the two apart by more than the type)
+SameV(a, b) == VEq(a, b) \/ PyEq(a, b)
 RECURSIVE SeqOrd(_, _)
 SeqOrd(a, b) == IF Len(a) = 0 /\ Len(b) = 0 THEN "eq" ELSE IF Len(a) = 0 THEN "lt" ELSE IF Len(b) = 0 THEN "gt"
                 ELSE IF Head(a) < Head(b) THEN "lt" ELSE IF Head(a) > Head(b) THEN "gt" ELSE SeqOrd(Tail(a), Tail(b))
@@ -135,9 +143,11 @@ Index(a, i) ==
 \* Settings (settings_controller.py).  env[s] is the value of the machine variable the setting s is stored in (NoneV =
 \* that variable does not exist).  st is stored under its own name, sq under a differently named variable (the
 \* `machine_var:` option), sc is an entry added by code with a machine variable of its own.  Every setting has the
-\* value table {1, 2, 3}; membership is Python's `in` on the keys of a dict (so True counts as 1).
+\* value table {0, 1, 2, 3} and a non-zero default; membership is Python's `in` on the keys of a dict (so True counts as 1).
 SNames == {"st", "sq", "sc"}
-SValid == {I(1), I(2), I(3)}
+SValid == {I(0), I(1), I(2), I(3)}
+MNames == {"ma", "mb"}
+DNames == MNames \cup SNames           \* names with a machine variable that can be missing / declared, unset / set
 SDefault(s) == CASE s = "st" -> I(2) [] s = "sq" -> I(1) [] s = "sc" -> I(3)
 SettingVal(s, x) == IF \E v \in SValid : PyEq(x, v) THEN x ELSE SDefault(s)
 Lookup(n, en) == CASE n = "px" -> IF en.game THEN en.px[en.cur] ELSE Err("missing")
@@ -230,6 +240,8 @@ ExprsOfSize(n, ES) ==
                {[t |-> "if", c |-> c, a |-> a, b |-> b] : c \in ES[i], a \in ES[j], b \in ES[n - 1 - i - j]}
                : j \in 1..(n - 2 - i)} : i \in 1..(n - 3)}
 \* ---------------------------------------------------------------- state machine (part B) -------------------
+\* a variable that holds a value exists
+DeclOK == \A n \in DNames : env[n] # NoneV => env.dc[n]
 Fresh(e, en) == [last |-> Res(e, en), reads |-> Deps(e, en), pending |-> FALSE]
 Init == /\ cfg \in Configs /\ env \in Envs /\ (env.game \/ cfg.ge) /\ nops = 0 /\ act = [op |-> "init"]
         /\ sub = Fresh(cfg.expr, env)
@@ -243,23 +255,29 @@ World(en2, keys, a, multi) ==
     /\ nops < MaxOps
     /\ env' = en2
     /\ \E spur \in Spurious : sub' = [sub EXCEPT !.pending = @ \/ (keys \cap sub.reads # {}) \/ spur]
-    /\ LET new == Res(cfg.expr, en2)
-       IN auto' = [last |-> new, must |-> Truthy(new) /\ ~PyEq(new, auto.last),
-                   may |-> Truthy(new) /\ (multi \/ ~PyEq(new, auto.last))]
+    \* the consumer subscribed after its last evaluation, whose outcome is the same as the current one's (AutoFresh): it is
+    \* told iff one of the keys the current outcome depends on changed (or spuriously) and then holds the new value,
+    \* else it keeps the one it has (0 stays 0 when False is written over it)
+    /\ \E aspur \in Spurious :
+         LET new == Res(cfg.expr, en2)
+             told == (keys \cap Deps(cfg.expr, env) # {}) \/ aspur
+         IN auto' = [last |-> IF told THEN new ELSE auto.last, must |-> Truthy(new) /\ ~PyEq(new, auto.last),
+                     may |-> Truthy(new) /\ (multi \/ ~PyEq(new, auto.last))]
     /\ nops' = nops + 1 /\ act' = a /\ UNCHANGED cfg
 SetM(n, v) == /\ n \in {"ma", "mb"} /\ n \in cfg.vars
-              /\ World([env EXCEPT ![n] = v], IF Changed(env[n], v) THEN {n} ELSE {}, [op |-> "set", var |-> n, p |-> 0, v |-> v], FALSE)
+              /\ World([env EXCEPT ![n] = v, !.dc[n] = TRUE], IF Changed(env[n], v) THEN {n} ELSE {}, [op |-> "set", var |-> n, p |-> 0, v |-> v], FALSE)
 \* Settings.  The machine variable behind the setting s goes from `old` to `new`: the setting changed if its value
 \* did (key s); a template that read that variable as machine.<name> depends on the variable itself (key "mq").
 UsesS(s) == s \in cfg.vars \/ (s = "sq" /\ "mq" \in cfg.vars)
 SKeys(s, old, new) == (IF Changed(SettingVal(s, old), SettingVal(s, new)) THEN {s} ELSE {})
                       \cup (IF s = "sq" /\ Changed(old, new) THEN {"mq"} ELSE {})
-\* settings.set_setting_value(s, v): only values of the table are accepted
+\* settings.set_setting_value(s, v): only values of the table are accepted.  (The controller declares the variable,
+\* then writes it: the first change of a setting is a write to a declared, unset variable.)
 SetS(s, v) == /\ s \in SNames /\ UsesS(s) /\ v \in SValid
-              /\ World([env EXCEPT ![s] = v], SKeys(s, env[s], v), [op |-> "set", var |-> s, p |-> 0, v |-> v], FALSE)
+              /\ World([env EXCEPT ![s] = v, !.dc[s] = TRUE], SKeys(s, env[s], v), [op |-> "set", var |-> s, p |-> 0, v |-> v], FALSE)
 \* set_machine_var(<machine variable of s>, v): any value; the setting reads as its default if v is not in the table
 SetSM(s, v) == /\ s \in SNames /\ UsesS(s)
-               /\ World([env EXCEPT ![s] = v], SKeys(s, env[s], v), [op |-> "setm", var |-> s, v |-> v], FALSE)
+               /\ World([env EXCEPT ![s] = v, !.dc[s] = TRUE], SKeys(s, env[s], v), [op |-> "setm", var |-> s, v |-> v], FALSE)
 SetW(v) == /\ "sw" \in cfg.vars
            /\ World([env EXCEPT !.sw = v], IF Changed(env.sw, v) THEN {"sw"} ELSE {}, [op |-> "set", var |-> "sw", p |-> 0, v |-> v], FALSE)
 SetC(v) == /\ "cv" \in cfg.vars
@@ -269,7 +287,11 @@ SetP(p, v) == /\ env.game /\ ("px" \in cfg.vars \/ "p2x" \in cfg.vars)
                        [op |-> "set", var |-> "px", p |-> p, v |-> v], FALSE)
 \* remove_machine_var: the variable reads as None afterwards
 Remove(n) == /\ n \in {"ma", "mb"} /\ n \in cfg.vars
-             /\ World([env EXCEPT ![n] = NoneV], IF Changed(env[n], NoneV) THEN {n} ELSE {}, [op |-> "remove", var |-> n], FALSE)
+             /\ World([env EXCEPT ![n] = NoneV, !.dc[n] = FALSE], IF Changed(env[n], NoneV) THEN {n} ELSE {}, [op |-> "remove", var |-> n], FALSE)
+\* configure_machine_var on a missing variable (of its own, or the one behind a setting): it exists now, still unset.
+\* Nothing a template can read changed.
+Declare(n) == /\ n \in DNames /\ ~env.dc[n] /\ (IF n \in SNames THEN UsesS(n) ELSE n \in cfg.vars)
+              /\ World([env EXCEPT !.dc[n] = TRUE], {}, [op |-> "declare", var |-> n], FALSE)
 UsesPlayers == "px" \in cfg.vars \/ "p2x" \in cfg.vars
 Turn == /\ env.game /\ UsesPlayers
         /\ World([env EXCEPT !.cur = 3 - env.cur], {"turn"}, [op |-> "turn"], TRUE)
@@ -292,6 +314,7 @@ Next == \/ \E n \in {"ma", "mb"}, v \in MVals : SetM(n, v)
         \/ \E v \in WVals : SetW(v)
         \/ \E v \in CVals : SetC(v)
         \/ \E p \in 1..2, v \in PVals : SetP(p, v)
+        \/ \E n \in DNames : Declare(n)
         \/ Turn \/ GameEnd \/ GameStart \/ Reeval \/ Post
 Spec == Init /\ [][Next]_vars
 \* ---------------------------------------------------------------- properties -------------------------------
@@ -336,8 +359,9 @@ Grow == \E w \in Wrap(cfg.expr, nops) : StateA(w.e, env, w.s, [op |-> "grow"]) /
 SpecA == InitA /\ [][Grow]_vars
 EvalTotalA == EvalTotal /\ VEq(sub.last, Res(cfg.expr, env)) /\ sub.reads = Deps(cfg.expr, env)
 \* part B: whenever no notification is pending the subscriber holds the current value
-NoStaleAtRest == ~sub.pending => VEq(sub.last, Res(cfg.expr, env))
-AutoFresh == VEq(auto.last, Res(cfg.expr, env))
+\* (the subscriber's view and evaluate() agree: the same value, up to what Python's == cannot tell apart)
+NoStaleAtRest == ~sub.pending => SameV(sub.last, Res(cfg.expr, env))
+AutoFresh == SameV(auto.last, Res(cfg.expr, env))
 \* after a change to anything the last evaluation depends on, the future completes
 KeysChanged == {n \in {"ma", "mb", "sw", "cv"} : Changed(env[n], env'[n])}
                \cup {s \in SNames : Changed(SettingVal(s, env[s]), SettingVal(s, env'[s]))}
